@@ -42,7 +42,7 @@ def work(tier, seed):
             if kind == "ulp" and sum(a + c for a, c in bl) > 8:
                 continue
             items.append({"blocks": [list(x) for x in bl], "grid": kind, "scalars": False,
-                          "small_easy": kind in ("float32", "mixed", "negated", "ulp")})
+                          "small_easy": kind in ("float32", "mixed", "negated", "ulp"), "mutated": kind == "irregular"})
     return items
 
 
